@@ -53,7 +53,8 @@ static unsigned kf_mask;         /* bit n: leave out the steps that fall under r
  * KF-C04-3  same trigger: the dispatcher goes on delivering requests / disconnects a second time
  * KF-C04-4  qb_ipcs_request_rate_limit while a connection that was disconnected inside connection_created is still listed
  * KF-C04-5  response/event send to such a connection on the socket transport
- * KF-C04-6  during qb_ipcs_destroy a callback releases or disconnects ANOTHER connection (the list walk's saved next) */
+ * KF-C04-6  during qb_ipcs_destroy a callback releases or disconnects ANOTHER connection (the list walk's saved next)
+ * KF-C04-7  socket transport: qb_ipcs_request_rate_limit while a connection whose connection_closed was invoked is still listed */
 static int kf(int n) { return (kf_mask >> n) & 1; }
 static int hist_no;
 
@@ -447,6 +448,7 @@ static void exec_op(struct vt_line *L, int t0, int n, struct conn *self)
 	} else if (!strcmp(op, "RateLimit")) {
 		if (!svc_usable()) return;
 		if (kf(4)) for (int i = 0; i < nconn; i++) if (conns[i].torn && !conns[i].destroyed) return;
+		if (kf(7) && svc_type == 1) for (int i = 0; i < nconn; i++) if (conns[i].closed_calls && !conns[i].destroyed) return;
 		ev_begin("RateLimit", k);
 		qb_ipcs_request_rate_limit(svc, (enum qb_ipcs_rate_limit)k);
 	} else if (!strcmp(op, "SvcDestroy")) {
